@@ -1,6 +1,6 @@
 (* C02 — property theorems.  Only statements, `exact`, and Print Assumptions. *)
 From Sdns Require Import Common.Base Gen.C02 C02.Model C02.Spec
-  C02.ModelNsec3 C02.Proofs_Order C02.Proofs_Nsec C02.Proofs_Spec C02.Proofs_NsecTop C02.Proofs_Nsec3 C02.ModelCut C02.Proofs_Cut C02.ModelAuth.
+  C02.ModelNsec3 C02.Proofs_Order C02.Proofs_Nsec C02.Proofs_Spec C02.Proofs_NsecTop C02.Proofs_Nsec3 C02.ModelCut C02.Proofs_Cut C02.ModelAuth C02.ModelShared C02.Proofs_Shared.
 Open Scope N_scope.
 
 (* ---- canonical order (RFC 4034 §6.1) is a total order *)
@@ -232,3 +232,49 @@ Theorem authority_nsec_sound :
   (aggr = true -> exists proof, aggr_nsec q qtype qclass signer set = A_deny rcode proof).
 Proof. exact authority_nsec_sound_lemma. Qed.
 Print Assumptions authority_nsec_sound.
+
+(* ---- shared negative-cache state behind Cache.ServeDNS (ModelShared.v: admission guard, denial-proof
+   index, subtree cuts; replacement, expiry, pruning, retirement of a zone without a live SOA, per-zone
+   FIFO eviction in both caches).
+
+   RFC 8020: nothing exists below a name that does not exist (directly, via wildcard, as an ENT, below a
+   delegation or DNAME) — what makes a subtree cut a sound answer for every descendant *)
+Theorem nothing_below_nonexistent :
+  forall z d q, ~ exists_in z d -> is_prefix d q -> ~ exists_in z q.
+Proof. exact Proofs_Shared.nothing_below_nonexistent. Qed.
+Print Assumptions nothing_below_nonexistent.
+
+(* shared_state_sound: for every well-formed zone, every pair of entry limits and every history — any
+   order of client exchanges (CD / ECS or not, any downstream answer) and clock advances, hence any order
+   in which proofs are admitted to, replaced in, evicted from and expire from the index and the cut
+   cache — in which whatever the local validator marks validated + aggressive-eligible consists of
+   genuine chain records (and, for NXDOMAIN, denies a name that does not exist: authority_nsec_sound):
+   every denial Cache.ServeDNS synthesizes goes to a request without CD and without ECS and is true of
+   the zone (NXDOMAIN => the name does not exist in any of the five ways; NOERROR => NODATA is true) *)
+Theorem shared_state_sound :
+  forall z, zone_wf z -> forall lim maxttl h now,
+  history_honest z h ->
+  forall q qtype cd ecs rc, In (q, qtype, cd, ecs, Some rc) (shared_run z lim maxttl shared_empty now h) ->
+    cd = false /\ ecs = false /\
+    ((rc = 3 /\ ~ exists_in z q) \/ (rc = 0 /\ nodata_true z q qtype)).
+Proof. exact (fun z Hwf lim maxttl h now Hh =>
+  shared_history_sound z Hwf lim maxttl h shared_empty now (inv_empty z) Hh). Qed.
+Print Assumptions shared_state_sound.
+
+(* a denial needs an earlier admission: nothing is synthesized while the zone has no SOA entry and no cut *)
+Theorem shared_needs_admission :
+  forall z lim maxttl now q qtype cd ecs ds st,
+  sh_soa st = None -> sh_cuts st = [] -> snd (exchange lim maxttl st now (z_apex z) q qtype cd ecs ds) = None.
+Proof. exact (fun z lim maxttl now q qtype cd ecs ds st => exchange_needs_admission z lim maxttl now q qtype cd ecs ds st). Qed.
+Print Assumptions shared_needs_admission.
+
+(* admission only with local provenance that is aggressive-eligible, CD=0 in request and response, no
+   ECS: anything else leaves the shared state exactly as it was *)
+Theorem shared_admission_guarded :
+  forall z lim maxttl st now q cd ecs ds,
+  match ds with DsPositive => True
+              | DsNegative _ _ _ marked aggressive res_cd =>
+                  negb ecs && negb cd && negb res_cd && marked && aggressive = false end ->
+  admit_downstream lim maxttl st now (z_apex z) q cd ecs ds = st.
+Proof. exact (fun z lim maxttl st now q cd ecs ds => admit_downstream_guard z lim maxttl st now q cd ecs ds). Qed.
+Print Assumptions shared_admission_guarded.
